@@ -14,18 +14,7 @@ EXPLANATION = ("Necessary structural conditions of write-write conflict detectio
 ASSUMPTIONS = ["rustc's MIR (mir_built) is a faithful control-flow model of the source",
                "parking_lot::Mutex provides mutual exclusion", "panics are not counted as exits"]
 
-COMMIT = "commit::CommitPipeline::commit::{closure#0}"
-
-
-def commit_body(cx):
-    return cx.f.coroutine_of("CommitPipeline::commit")
-
-
-def write_mutex_guard(cx, body):
-    gs = [g for g in guard_regions(body, lock_wrappers(cx.f)) if g.lock.endswith("write_mutex")]
-    if len(gs) != 1:
-        raise AnchorMissing("expected exactly one write_mutex acquisition in commit(), found %d" % len(gs))
-    return gs[0]
+from .pipeline import *
 
 
 @rule("C04", "C04.R1", "check, seq allocation, publish, enqueue and WAL write share one write_mutex section")
@@ -72,27 +61,7 @@ def r2(cx):
               "reset_oracle_for_restore callers", "who:reset2")
     who_calls(cx, ["CommitPipeline::commit"], {"Core::commit"}, "CommitPipeline::commit callers", "who:commit")
     who_calls(cx, ["Core::commit"], {"Transaction::commit"}, "Core::commit callers", "who:corecommit")
-    # every read-modify-write / store on log_seq_num
-    n = 0
-    for body in cx.f.bodies.values():
-        for c in body.calls:
-            if c.bb not in body.live or not c.args:
-                continue
-            if not any(t.startswith("std::sync::atomic::Atomic") for t in c.targets):
-                continue
-            meth = c.primary.split("::")[-1]
-            if meth in ("load", "new"):
-                continue
-            o = origin_of_operand(body, c.args[0])
-            if "log_seq_num" not in o.field_names():
-                continue
-            n += 1
-            owner = cx.f.fn_of(body).id
-            allowed = {"commit::CommitPipeline::commit": ("fetch_add",), "commit::CommitPipeline::set_seq_num": ("store",)}
-            cx.check(owner in allowed and meth in allowed[owner],
-                     "log_seq_num.%s in `%s` is an allowed writer" % (meth, owner), "who:log_seq_num|%s.%s" % (owner, meth),
-                     c.where(), "log_seq_num is modified by `%s` (%s), outside the commit critical section" % (owner, meth))
-    cx.floor("log_seq_num writers", n, 2)
+    log_seq_num_writers(cx)
     # restore resets the oracle inside the lock_writes region
     rb = cx.f.body("Tree::restore_from_checkpoint")
     gs = [g for g in guard_regions(rb, lock_wrappers(cx.f)) if g.lock.endswith("write_mutex")]
@@ -381,26 +350,10 @@ def r7(cx):
             if "txn_guard" in o.field_names():
                 rel.append(c.bb)
     cx.floor("txn_guard releases in Transaction::commit", len(rel), 1)
-    pollb = _await_polls(cb, cc)
+    pollb = await_polls(cb, cc)
     for r in rel:
         # released after the pipeline commit was awaited, or on a path that never commits (empty write-set)
         ok = cb.set_dominates([p for p in pollb], r) or not ({c.bb for c in cc} & cb.reachable_after([r]))
         cx.check(ok, "txn_guard is released only after the pipeline commit was awaited", "guard-released-early", cb.where(r),
                  "Transaction::commit releases its active-transaction registration before Core::commit has run: "
                  "the oracle may prune the window of a transaction that is still validating")
-
-
-def _await_polls(body, future_calls):
-    """poll call blocks of awaits on the futures created by `future_calls`"""
-    res = []
-    for c in body.calls:
-        if not c.args or c.args[0][0] not in ("c", "m"):
-            continue
-        if not (c.primary.endswith("{closure#0}") or "Future>::poll" in c.primary or c.primary.endswith("Future::poll")):
-            continue
-        o = origin_of_operand(body, c.args[0], through_calls=True)
-        if any(x in future_calls for x in o.calls):
-            res.append(c.bb)
-    if not res:
-        raise AnchorMissing("await of %s not found in %s" % (future_calls, body.id))
-    return res
